@@ -85,6 +85,22 @@ def setitem_shape(ctx, tk):
     selfn, idxp, valp = f.params[0], f.params[1], f.params[2]
     writes = find_calls(fa, lambda c: c.a[0].k == "attr" and c.a[0].a[1] == "_set_data_range")
     wnodes = [n for n, _ in writes]
+    # the assigned value reaches the value-kind dispatch as the caller gave it: replacing it by one of its cells (value[0],
+    # value.ravel()[0], value.item()) under a test that is not a type test turns a one-cell RaggedArray into a scalar, which is then
+    # broadcast over the selection instead of being checked against its shape
+    for n in fa.cfg.stmts():
+        if not (n.kind == "stmt" and isinstance(n.ast, ast.Assign) and any(isinstance(tg, ast.Name) and tg.id == valp for tg in n.ast.targets)):
+            continue
+        rhs = n.ast.value
+        unwraps = any((isinstance(y, ast.Subscript) and any(isinstance(z, ast.Name) and z.id == valp for z in ast.walk(y.value)) and isinstance(y.slice, ast.Constant)) or
+                      (isinstance(y, ast.Call) and isinstance(y.func, ast.Attribute) and y.func.attr == "item" and any(isinstance(z, ast.Name) and z.id == valp for z in ast.walk(y.func.value)))
+                      for y in ast.walk(rhs))
+        if not unwraps:
+            continue
+        typed = any(t.k == "call" and call_name(t) == "isinstance" and t.a[1] and any(a.k == "param" and a.a[0] == valp for a in alts(t.a[1][0])) for t, truth, _ in facts_at(fa, n))
+        ctx.decide("C03.c", f, "a ragged value is compared with the selection's shape before anything is taken out of it", True if typed else False,
+                   "`%s` replaces the value by one of its cells without a type test in front: a RaggedArray holding a single cell is assigned like a scalar "
+                   "(broadcast over every selected cell) although its row lengths differ from the selection's" % ast.unparse(n.ast), node=n.ast, key="value-unwrapped", engine="E1")
     # dispatch completeness: every normal path performs exactly one raw write
     if wnodes:
         complete = fa.cfg.must_pass(wnodes, fa.cfg.exit)
